@@ -41,6 +41,8 @@ Known findings: see KNOWN_FINDINGS.txt (`c04:*`).
 -/
 import AutosarVerif.Lemmas.WorldOps
 import AutosarVerif.Lemmas.IndexWitness
+import AutosarVerif.Lemmas.StepX
+import AutosarVerif.Lemmas.RefWfReal
 import AutosarVerif.Lemmas.IndexBridge
 import AutosarVerif.Lemmas.NameWfReal
 
@@ -103,6 +105,27 @@ theorem C04_index_exact_reachable (S : Spec) (V : Env) (vOk : Nat) (rootAttrs : 
   constructor
   · rintro ⟨c, hc, hn, hp⟩; exact ⟨c, hc, hn, (chainPre_nil S c) ▸ hp⟩
   · rintro ⟨c, hc, hn, hp⟩; exact ⟨c, hc, hn, (chainPre_nil S c).symm ▸ hp⟩
+
+/-- **C04 over all histories of the LARGER alphabet** (`Model/Step.lean`, `OpX`: the core operations, `set_item_name`,
+`set_reference_target`, `sort`): the same statement in every state reachable by any guarded history -/
+theorem C04_index_exact_reachable_larger_alphabet (S : Spec) (V : Env) (vOk : Nat) (rootAttrs : List (Nat × CDv))
+    (hH : IdxHyp S V vOk) (hR : RefWF S) (hv32 : vOk &&& 0xFFFFFFFF = vOk) (ops : List OpX)
+    (hops : ∀ op ∈ ops, OpXOk S vOk op) :
+    ∀ m ∈ (runX S V rootAttrs ops).models,
+      (∀ q i, m.lookup q = some i ↔
+        ∃ c, m.rootItems.chain i = some c ∧ (itemName S (lastOf c).1 (lastOf c).2).isSome = true ∧ pathOfChain S c = q) ∧
+      keysNodupI (entries S m.rootItems []) ∧ m.rootItems.ids.Nodup := by
+  intro m hm
+  have h := (runX_finv S V vOk rootAttrs hH hR hv32 ops hops).1.1 m hm
+  refine ⟨fun q i => ?_, h.keys, h.ids⟩
+  rw [Model.lookup, h.exact q i, entries_mem_iff S m.rootItems h.ids [] q i]
+  constructor
+  · rintro ⟨c, hc, hn, hp⟩; exact ⟨c, hc, hn, (chainPre_nil S c) ▸ hp⟩
+  · rintro ⟨c, hc, hn, hp⟩; exact ⟨c, hc, hn, (chainPre_nil S c).symm ▸ hp⟩
+
+/-- the side condition `hv32` and the reference facts hold for the real tables and the version set used for them -/
+theorem C04_real_side_conditions : (0xFFFFFFFE : Nat) &&& 0xFFFFFFFF = 0xFFFFFFFE ∧ RefWF AV.Gen.realSpec :=
+  ⟨by decide, AV.Gen.realSpec_refWF⟩
 
 /-- the facts the invariant needs from the specification hold of the tables regenerated from the current source, for
 every version except AUTOSAR 4.0.1 (kernel evaluation of the scans in `Lemmas/NameWfCheck.lean`) -/
